@@ -42,6 +42,21 @@ def is_transparent(path):
 OK_PRESERVING = ("core::result::Result::map_err", "core::option::Option::ok_or", "core::option::Option::ok_or_else")
 
 
+LOGGING_OUTER = ("attribute macro:tracing::instrument", "macro:tracing::", "macro:log::", "macro:log_instruction",
+                 "macro:crate::log_instruction", "macro:$crate::log_instruction")
+
+
+def is_logging_expansion(ex):
+    """The outermost macro of the expansion chain is a logging / tracing macro (or measure!'s own span plumbing)."""
+    names = [e for e in (ex or ()) if not e.startswith("desugar:")]
+    if not names:
+        return False
+    outer = names[-1]
+    if outer == "macro:measure":
+        return any("tracing::span" in e or "$crate::span" in e or "level_enabled" in e for e in names[:-1])
+    return outer.startswith(LOGGING_OUTER)
+
+
 def is_try_branch(path):
     return path.endswith("core::ops::try_trait::Try>::branch")
 
@@ -733,6 +748,12 @@ def enumerate_paths(fn, prov=None, start=0, init=None, max_paths=4000, max_visit
             dp = op_place(t["discr"])
             dl = dp["l"] if dp and not dp["p"] else None
             targets = t["targets"]
+            if is_logging_expansion(t.get("ex", ())):
+                # branch inserted by log!/tracing macros (level checks, span construction): both sides only log
+                # and re-join; follow the disabled side so instrumentation does not multiply paths
+                tb = dict((a, b_) for a, b_ in targets).get("0", t["otherwise"])
+                stack.append((tb, st))
+                continue
             if dl is not None and dl in st.consts:
                 v = str(st.consts[dl])
                 tb = dict((a, b_) for a, b_ in targets).get(v, t["otherwise"])
